@@ -325,6 +325,11 @@ def CInfo.hash (H : Bytes → Bytes) (ci : CInfo) : Bytes :=
 
 def CInfo.commitID (H : Bytes → Bytes) (ci : CInfo) : CID := ⟨ci.version, ci.hash H⟩
 
+/-- The version recorded for substore `n` in a commit info (the Go code builds a map from the
+`StoreInfo`s: a duplicated name keeps the last entry; a missing name gives the zero `CommitID`). -/
+def CInfo.verOf (ci : CInfo) (n : Name) : Int :=
+  ((ci.infos.filter fun si => si.name = n).getLast?.map (·.cid.version)).getD 0
+
 /-- What is on disk: one `NDB` per mounted IAVL store (`PrefixDB "s/k:<name>/"`), the commit-info
 records and the latest-version record. -/
 structure Disk where
@@ -362,8 +367,7 @@ def loadMS (H : Bytes → Bytes) (d : Disk) (names : List Name) (ver : Int) : Op
     match aget ver d.cinfos with
     | none => none
     | some ci =>
-      let verOf (n : Name) : Int := ((ci.infos.filter fun si => si.name = n).getLast?.map (·.cid.version)).getD 0
-      match names.mapM (fun n => (loadStore (d.storeDB n) (verOf n)).map fun t => (n, t)) with
+      match names.mapM (fun n => (loadStore (d.storeDB n) (ci.verOf n)).map fun t => (n, t)) with
       | none => none
       | some stores => some ⟨ci.commitID H, stores, d.cinfos, d.latest⟩
 
@@ -423,21 +427,19 @@ def crashDisk (d : Disk) (ws : List DWrite) (k : Nat) : Disk := (ws.take k).fold
 at the version recorded in the *latest* commit info, rolled back with `LoadVersionForOverwriting
 (height)` (its own atomic batch), then one batch sets `s/latest := height` and deletes the commit
 infos `height+1 ..= latest`.  `lastCommitID` is **not** touched. `none` = error/panic. -/
-def rollbackMS (H : Bytes → Bytes) (d : Disk) (names : List Name) (height : Int) : Option MStore :=
+def rollbackMS (d : Disk) (names : List Name) (height : Int) : Option MStore :=
   let ver := d.latestVersion
   if height ≥ ver then none
   else
     match aget ver d.cinfos with
     | none => none
     | some ci =>
-      let verOf (n : Name) : Int := ((ci.infos.filter fun si => si.name = n).getLast?.map (·.cid.version)).getD 0
       match names.mapM (fun n =>
-        match loadStore (d.storeDB n) (verOf n) with
+        match loadStore (d.storeDB n) (ci.verOf n) with
         | none => none
         | some t => (loadVersionForOverwriting t height).map fun r => (n, r.1)) with
       | none => none
       | some stores =>
-        let _ := H
         some ⟨{}, stores, d.cinfos.filter (fun e => !(decide (height + 1 ≤ e.1) && decide (e.1 ≤ ver))), some height⟩
 
 end NodeDB
